@@ -30,10 +30,12 @@ def run(chk):
     chk.touched(gs + ss)
     g, s = gs[0], ss[0]
     gassign = {}
+    gnode, snode = {}, {}
     for n in walk(g["body"]):
         tgt, src = assignment(n)
         if tgt is not None and tgt.get("k") == "member" and tgt.get("q", "").startswith(CB + "::State::"):
             gassign[tgt["name"]] = src
+            gnode[tgt["name"]] = n
     sassign = {}
     for n in walk(s["body"]):
         tgt, src = assignment(n)
@@ -41,10 +43,12 @@ def run(chk):
             for x in walk(src):
                 if x.get("k") == "member" and x.get("q", "").startswith(CB + "::State::"):
                     sassign[x["name"]] = tgt
+                    snode[x["name"]] = n
         if n.get("k") == "call" and n.get("name") == "set_state":
             for x in walk(n):
                 if x.get("k") == "member" and x.get("q", "").startswith(CB + "::State::"):
                     sassign[x["name"]] = n
+                    snode[x["name"]] = n
     for fl in st["fields"]:
         nm = fl["name"]
         gsrc = expr_str(prog, g, gassign[nm]) if nm in gassign else None
@@ -56,6 +60,28 @@ def run(chk):
             ok = key in gsrc and key in sdst
         r1.ob("ChaiScript_Basic::State::%s saved by get_state and restored by set_state" % nm, ok, "%s:%d" % (st["file"], fl["l"]), CB + "::State",
               "field %s: get_state reads %s, set_state writes %s" % (nm, gsrc, sdst))
+        # the copy back must happen on every path: a restore that is skipped under some condition leaves the live record as it was
+        for side, fn_, table in (("get_state", g, gnode), ("set_state", s, snode)):
+            node = table.get(nm)
+            if node is None:
+                continue
+            fl_ = FnFlow(fn_)
+            stmt = node
+            conds = []
+            tgt_, src_ = assignment(node)
+            for a in fl_.ancestors(node):
+                if a.get("k") == "if" and tgt_ is not None and src_ is not None:
+                    # `if (a != b) a = b;` is the same as copying always
+                    c_ = strip_casts(a.get("cond") or {})
+                    ops = (c_.get("args") if c_.get("k") == "call" else [c_.get("lhs"), c_.get("rhs")]) or []
+                    if c_.get("op") == "!=" and len(ops) == 2 and {expr_str(prog, fn_, strip_casts(o)) for o in ops} == {expr_str(prog, fn_, strip_casts(tgt_)), expr_str(prog, fn_, strip_casts(src_))}:
+                        continue
+                if a.get("k") in ("if", "while", "for", "do", "switch", "cond", "rangefor", "try"):
+                    conds.append("%s at line %d" % (a["k"], a["l"]))
+                elif a.get("k") == "binop" and a.get("op") in ("&&", "||"):
+                    conds.append("%s at line %d" % (a["op"], a["l"]))
+            r1.ob("ChaiScript_Basic::State::%s: %s copies it unconditionally" % (nm, side), not conds, "%s:%d" % (fn_["file"], node.get("l", 0)), fn_["q"],
+                  "the copy of %s is nested under %s: when the condition fails the record keeps the contents it had, which need not be those of the snapshot" % (nm, conds))
     egs = [f for f in prog.fns if f["name"] == "get_state" and f.get("cls") == DE]
     ess = [f for f in prog.fns if f["name"] == "set_state" and f.get("cls") == DE]
     r1.anchor(len(egs) == 1 and len(ess) == 1, "Dispatch_Engine::get_state / set_state")
